@@ -55,9 +55,19 @@ def run(ctx, prop=PROP, judge=None, what=WHAT):
     bad = 0
     dist = {"with_tail": 0, "labels_off": 0, "stderr": 0, "eagain": 0, "bytes_total": 0}
     samples = []
+    # half of the cases in each keep-domain mode (the flag is process-wide in err.c); small batches first so
+    # that a change which makes every case hang or fail is reported after seconds, not after all cases timed out
+    batches = []
     for keep in (False, True):
-        # half of the cases in each keep-domain mode (the flag is process-wide in err.c)
-        idx = [i for i in range(len(cases)) if (i % 2 == 1) == keep]
+        allidx = [i for i in range(len(cases)) if (i % 2 == 1) == keep]
+        batches.append((keep, allidx[:8]))
+    for keep in (False, True):
+        allidx = [i for i in range(len(cases)) if (i % 2 == 1) == keep]
+        batches.append((keep, allidx[8:120]))
+        batches.append((keep, allidx[120:]))
+    for keep, idx in batches:
+        if not idx:
+            continue
         sub = [cases[i] for i in idx]
         impl = eng.run_impl(sub, keep)
         model = eng.run_model(sub, keep)
